@@ -9,6 +9,7 @@
 //   clock_gettime() virtual monotonic clock
 // Ops: see drv_apply().  Every call, every intercepted send, every poll and every callback is one trace event.
 #include "drv.h"
+#include <poll.h>
 #include <dlfcn.h>
 #include <errno.h>
 #include <time.h>
@@ -33,10 +34,13 @@ static long g_reset_line = 0;
 struct ClientCb;
 static Server::Client* cl[NC + 1];
 static Socket* peer[NC + 1];
+static Socket* palias[NC + 1];           // peer of an ACCEPTED client: the harness socket hs[h] that connected (not owned)
+static Socket* pr(int c) { return peer[c] ? peer[c] : palias[c]; }
 static int clfd[NC + 1];
 static ClientCb* ccb[NC + 1];
 static long acc[NC + 1];                 // bytes accepted so far (position of the next byte to write)
 static long pacc[NC + 1];                // bytes the peer has sent so far
+static long wired[NC + 1], pgotn[NC + 1];   // bytes the OS took from the client / bytes the peer has read (to know whether TCP data is still in flight)
 static int inwrite_c = 0, inwrite_n = 0; // a Client::write call is in progress
 // ---- listeners (accept connections from harness sockets) and establishers (connect to harness listening sockets)
 enum { NLS = 2, NES = 2, NH = 4 };
@@ -118,6 +122,7 @@ extern "C" ssize_t send(int fd, const void* buf, size_t len, int flags)
   else if(o == 'P') { size_t n = (size_t)k < len ? (size_t)k : len; if(n == 0 && len > 0) n = 1; ret = real_send(fd, buf, n, flags); err = errno; }
   else { ret = real_send(fd, buf, len, flags); err = errno; }
   char os[2] = {o, 0};
+  if(ret > 0) wired[c] += ret;
   ev_begin("send"); j_int("c", c); j_int("req", (long long)len); j_str("o", os); j_int("ret", (long long)ret);
   j_bytes("b", (const unsigned char*)buf, ret > 0 ? ret : 0);
   j_int("inwrite", inwrite_c == c ? inwrite_n : 0);
@@ -269,7 +274,17 @@ struct ListenerCb : public Server::Listener::ICallback
     g_cb_self_client = 0; g_cb_self_timer = 0;
     int reject = cbqn > 0 && strstr(cbq[0], "reject") != 0;
     int c = reject ? 0 : free_client_slot();
-    if(c) { cl[c] = &client; clfd[c] = (int)client.getSocket().getFileDescriptor(); acc[c] = pacc[c] = 0; }
+    if(c)
+    {
+      cl[c] = &client; clfd[c] = (int)client.getSocket().getFileDescriptor(); acc[c] = pacc[c] = wired[c] = pgotn[c] = 0;
+      // the harness socket at the other end becomes this client's peer (psend / pread / check work as for a pair)
+      delete peer[c]; peer[c] = 0; palias[c] = 0;
+      uint32 rip, hip; uint16 rport, hport;
+      if(client.getSocket().getPeerName(rip, rport))
+        for(int h = 1; h <= NH; ++h)
+          if(hs[h] && hs[h]->getSockName(hip, hport) && hport == rport) { palias[c] = hs[h]; hs[h]->setNonBlocking(); }
+    }
+    g_cb_self_client = c;                    // rmself / writeself / suspendself in the callback act on the new client
     ev_begin("onAccepted"); j_int("l", me); j_int("c", c); j_end();
     pop_actions();
     return (c && cl[c]) ? ccb[c] : 0;      // a null callback makes the server drop the client (also when it was removed just now)
@@ -283,7 +298,8 @@ struct EstablisherCb : public Server::Establisher::ICallback
     int me = e;
     g_cb_self_client = 0; g_cb_self_timer = 0;
     int c = free_client_slot();
-    if(c) { cl[c] = &client; clfd[c] = (int)client.getSocket().getFileDescriptor(); acc[c] = pacc[c] = 0; }
+    if(c) { cl[c] = &client; clfd[c] = (int)client.getSocket().getFileDescriptor(); acc[c] = pacc[c] = wired[c] = pgotn[c] = 0; delete peer[c]; peer[c] = 0; palias[c] = 0; }
+    g_cb_self_client = c;
     estfd[me] = -1;                        // the establisher's socket now belongs to the client
     ev_begin("onConnected"); j_int("e", me); j_int("c", c); j_end();
     int keep = cbqn > 0 && strstr(cbq[0], "keep") != 0;
@@ -324,11 +340,12 @@ static void op_pair(int c, const char* in)
 {
   if(c < 1 || c > NC || cl[c]) { ev_begin("nop"); j_end(); return; }
   delete peer[c];
+  palias[c] = 0;
   peer[c] = new Socket;
   cl[c] = srv->pair(*ccb[c], *peer[c]);
   clfd[c] = cl[c] ? (int)cl[c]->getSocket().getFileDescriptor() : -1;
   if(cl[c]) peer[c]->setNonBlocking();
-  acc[c] = pacc[c] = 0;
+  acc[c] = pacc[c] = wired[c] = pgotn[c] = 0;
   ev_begin("pair"); j_int("c", c); j_bool("ok", cl[c] != 0); j_str("in", in); j_end();
 }
 static void op_write(int c, int n, const char* o, const char* in)
@@ -387,6 +404,9 @@ static void exec_actions(char* list)
     else if(!strcmp(w[0], "remove") && n >= 2) op_remove(atoi(w[1]), "cb");
     else if(!strcmp(w[0], "rmself")) { if(g_cb_self_timer) op_rmtimer(g_cb_self_timer, "cb"); else if(g_cb_self_client) op_remove(g_cb_self_client, "cb"); }
     else if(!strcmp(w[0], "write") && n >= 4) op_write(atoi(w[1]), atoi(w[2]), w[3], "cb");
+    else if(!strcmp(w[0], "writeself") && n >= 3) { if(g_cb_self_client) op_write(g_cb_self_client, atoi(w[1]), w[2], "cb"); }
+    else if(!strcmp(w[0], "suspendself")) { if(g_cb_self_client) op_susp(g_cb_self_client, 1, "cb"); }
+    else if(!strcmp(w[0], "resumeself")) { if(g_cb_self_client) op_susp(g_cb_self_client, 0, "cb"); }
     else if(!strcmp(w[0], "suspend") && n >= 2) op_susp(atoi(w[1]), 1, "cb");
     else if(!strcmp(w[0], "resume") && n >= 2) op_susp(atoi(w[1]), 0, "cb");
     else if(!strcmp(w[0], "interrupt")) do_interrupt("cb");
@@ -409,7 +429,7 @@ void drv_fini()
 {
   scripting = 0;
   delete srv; srv = 0;
-  for(int c = 1; c <= NC; ++c) { cl[c] = 0; delete peer[c]; peer[c] = 0; clfd[c] = -1; }
+  for(int c = 1; c <= NC; ++c) { cl[c] = 0; delete peer[c]; peer[c] = 0; palias[c] = 0; clfd[c] = -1; }
   for(int t = 1; t <= NT; ++t) tm[t] = 0;
   for(int l = 1; l <= NLS; ++l) { lst[l] = 0; lstfd[l] = -1; }
   for(int e = 1; e <= NES; ++e) { est[e] = 0; estfd[e] = -1; }
@@ -439,31 +459,39 @@ void drv_apply(const char* op)
   else if(!strcmp(op, "psend"))
   {
     int c = (int)tok_int(); int n = (int)tok_int();
-    if(c < 1 || c > NC || !peer[c] || !peer[c]->isOpen()) { ev_begin("nop"); j_end(); return; }
+    if(c < 1 || c > NC || !pr(c) || !pr(c)->isOpen()) { ev_begin("nop"); j_end(); return; }
     unsigned char d[256]; if(n > 256) n = 256;
     for(int i = 0; i < n; ++i) d[i] = (unsigned char)((pacc[c] + i) % 241);
-    ssize r = peer[c]->send(d, n);
+    ssize r = pr(c)->send(d, n);
     if(r > 0) pacc[c] += r;
     ev_begin("psend"); j_int("c", c); j_int("n", n); j_int("ret", (long long)r); j_end();
   }
   else if(!strcmp(op, "pread"))
   {
     int c = (int)tok_int(); int n = (int)tok_int();
-    if(c < 1 || c > NC || !peer[c] || !peer[c]->isOpen()) { ev_begin("nop"); j_end(); return; }
+    if(c < 1 || c > NC || !pr(c) || !pr(c)->isOpen()) { ev_begin("nop"); j_end(); return; }
     unsigned char d[4096]; if(n > 4096) n = 4096;
-    ssize r = peer[c]->recv(d, n);
+    ssize r = pr(c)->recv(d, n);
+    if(r > 0) pgotn[c] += r;
     ev_begin("pread"); j_int("c", c); j_int("ret", (long long)r); j_bytes("b", d, r > 0 ? r : 0); j_end();
   }
   else if(!strcmp(op, "check"))
   {
     // end-of-history completeness probe: the peer reads everything the kernel holds, then the backlog is reported
     int c = (int)tok_int();
-    if(c < 1 || c > NC || !cl[c] || !peer[c] || !peer[c]->isOpen()) { ev_begin("nop"); j_end(); return; }
+    if(c < 1 || c > NC || !cl[c] || !pr(c) || !pr(c)->isOpen()) { ev_begin("nop"); j_end(); return; }
     unsigned char d[8192];
     for(;;)
     {
-      ssize r = peer[c]->recv(d, sizeof(d));
+      if(palias[c])
+      {
+        // a TCP peer (accepted client): small segments may still be on their way (Nagle / delayed ACK): wait for them
+        struct pollfd pfd; pfd.fd = (int)palias[c]->getFileDescriptor(); pfd.events = POLLIN; pfd.revents = 0;
+        if(pgotn[c] >= wired[c] || ::poll(&pfd, 1, 1000) <= 0) break;      // nothing in flight / nothing arrives any more
+      }
+      ssize r = pr(c)->recv(d, sizeof(d));
       if(r <= 0) break;
+      pgotn[c] += r;
       ev_begin("pread"); j_int("c", c); j_int("ret", (long long)r); j_bytes("b", d, r); j_end();
     }
     ev_begin("check"); j_int("c", c); j_int("sb", (long long)cl[c]->getSendBufferSize()); j_bool("drained", 1); j_end();
@@ -471,8 +499,8 @@ void drv_apply(const char* op)
   else if(!strcmp(op, "pclose"))
   {
     int c = (int)tok_int();
-    if(c < 1 || c > NC || !peer[c] || !peer[c]->isOpen()) { ev_begin("nop"); j_end(); return; }
-    peer[c]->close();
+    if(c < 1 || c > NC || !pr(c) || !pr(c)->isOpen()) { ev_begin("nop"); j_end(); return; }
+    pr(c)->close();
     ev_begin("pclose"); j_int("c", c); j_end();
   }
   else if(!strcmp(op, "listen"))
@@ -513,6 +541,7 @@ void drv_apply(const char* op)
   {
     int h = (int)tok_int();
     if(h < 1 || h > NH || !hs[h]) { ev_begin("nop"); j_end(); return; }
+    for(int c = 1; c <= NC; ++c) if(palias[c] == hs[h]) palias[c] = 0;
     delete hs[h]; hs[h] = 0;
     ev_begin("hclose"); j_int("h", h); j_end();
   }
